@@ -12,6 +12,7 @@ import (
 	"sort"
 	"strings"
 	"testing"
+	"time"
 	"unsafe"
 
 	"github.com/ProjectSerenity/firefly/kernel/device/acpi/table"
@@ -33,6 +34,7 @@ func (w *c11ErrWriter) Write(p []byte) (int, error) {
 }
 
 var c11Arenas []*vlib.Arena
+var c11Run *vlib.Run // set by the harness that is running (watchdog reporting)
 
 // c11Place copies header+payload into guard-paged memory (the table ends at the guard page).
 func c11Place(slot int, payload []byte) *table.SDTHeader {
@@ -78,11 +80,33 @@ func c11Parse(tables [][]byte) *c11Result {
 	for i, tb := range tables {
 		hdr := c11Place(i, tb)
 		var err interface{}
-		pv, st := vlib.Protect(func() {
-			if e := p.ParseAML(uint8(i), fmt.Sprintf("TBL%d", i), hdr); e != nil {
-				err = e
+		var pv interface{}
+		var st string
+		done := make(chan struct{})
+		go func() {
+			defer close(done)
+			old := debug.SetPanicOnFault(true)
+			defer debug.SetPanicOnFault(old)
+			pv, st = vlib.Protect(func() {
+				if e := p.ParseAML(uint8(i), fmt.Sprintf("TBL%d", i), hdr); e != nil {
+					err = e
+				}
+			})
+		}()
+		budget := 15 * time.Second
+		if c11Run != nil && c11Run.Single() {
+			budget = 120 * time.Second
+		}
+		select {
+		case <-done:
+		case <-time.After(budget):
+			// a watchdog is not a verdict: vcheck re-runs the announced case alone with a larger
+			// budget and reports a timeout only if it repeats
+			if c11Run != nil {
+				c11Run.Watchdog("ParseAML did not return on a generated well-formed table")
 			}
-		})
+			panic("ParseAML did not return")
+		}
 		if pv != nil {
 			res.panicV, res.stack, res.failedAt = pv, st, i
 			break
@@ -658,6 +682,8 @@ func TestVerifC11(t *testing.T) {
 	run.Assume("construct classes listed as open findings in known_findings.json (K1, K2, ...) are not emitted by the random population; each has a fixed reproducer that is re-executed on every run")
 	run.Assume("the mapping between an AML operand and its node in the tree (resolved/unresolved name, null target) follows the parse mode, see DESIGN C11")
 
+	c11Run = run
+	debug.SetMaxStack(64 << 20)
 	dump := os.Getenv("VERIF_C11_DUMP") != ""
 	n := run.N(1500, 150000)
 	feats := map[string]int{}
